@@ -5,7 +5,7 @@
    [all_off] is the conformant model; the unchanged code has the four deviations D100-D103 (refuted below). *)
 From PV Require Import Common.Util Life.ReloadBase Gen.ReloadConsts Life.Modules Life.Reload Life.ReloadPlanSpec Life.ReloadSpec
   Life.ReloadCheck Proofs.LifeReloadBase Proofs.LifeClosure Proofs.LifePlan Proofs.LifeUntouched Proofs.LifeExec
-  Proofs.LifeDiscover Proofs.LifeDiscoverDoc Proofs.LifeReloadThms Proofs.LifeReloadFindings.
+  Life.ReloadLoaded Proofs.LifeDiscover Proofs.LifeDiscoverDoc Proofs.LifeReloadThms Proofs.LifeReloadFindings Proofs.LifeLoaded.
 
 (* import_recurse, with its `visited` set and its memo shared between the top-level calls, returns exactly the
    contexts reachable through one or more recorded import edges -- for every context table whose import graph is
@@ -46,27 +46,74 @@ Theorem C10_untouched : forall born st t k a c,
 Proof. exact untouched_spec. Qed.
 Print Assumptions C10_untouched.
 
-(* C10_post_state_partial.  Full statement of the plan (DESIGN.md): loaded (apply (plan ...)) = spec_loaded, i.e. the
-   table after a default or '*' reload is exactly {existing auto-loaded files} U {modules they transitively import},
-   each at current source.  Proved here, for every state, tree and configuration:
-     - every context of the new table runs the current source of an existing file: a survivor is not `changed` with
-       respect to the discovered file of its name (source generation, mtime, app configuration all equal), a
-       re-executed auto-loaded file is its discovered entry, an imported module is the tree's file at an import
-       candidate's path under that candidate's name (current_ctx);
-     - after '*' nothing of the old table survives (C10_star_discards_all);
-     - every auto-loaded file the plan forces is executed at its current generation (C10_reexecuted), and every
-       discovered auto-loaded file is executed or an untouched survivor (C10_autoload_complete);
-     - names and auto-load flags of discovered files are the documented ones (C10_discover_names, C10_discover_autoload).
-   Missing for the full equality: that a module brought in by an import is the *discovered* entry of its name
-   (needs a tree without both forms of a sub-module) and the by-source import closure of the Spec (Life/ReloadSpec.v
-   sp_load), which the correspondence evaluates on every generated history instead. *)
-Theorem C10_post_state_partial : forall born st t k a,
+(* ---------- the post-state (first sentence of the property) ----------
+   [spec_loaded t k] (Life/ReloadLoaded.v) is the least set of context names containing the existing auto-loaded
+   files and closed under "its source imports m and m resolves to an existing file" -- defined on the tree alone
+   (module_import's candidate list + first existing file; no table, no lookup-before-load, no execution order).
+   [consistent t k st]: every context of the table is a reachable load descriptor at the tree's CURRENT source
+   (generation, mtime, rel_import_path, module-or-auto-loaded) and everything it transitively imports is loaded.
+   [good_tree t k]: no duplicate paths; every import of a reachable file resolves (else that file fails to load);
+   unambiguous (one name = one way to load it; no second candidate of an import names another reachable file);
+   the import graph of the tree is acyclic with chains shorter than the number of files (fuel = |tree| + 1).
+   [ex_good_tree] inhabits it (diamond, app package with a sibling importing a module, script in a sub-directory). *)
+
+(* '*' (also when forced by a change of the global options) and start-up: exact, both directions, unconditionally *)
+Theorem C10_post_state_star : forall born st t k, good_tree t k -> uniq_ctx st -> acyclic st ->
+  (forall c, In c st -> in_ctx_roots (c_name c) = true) ->
+  let st' := r_st (reload all_off born st t k RAll) in
+  consistent t k st' /\ forall n, has st' n <-> spec_loaded t k n.
+Proof. exact star_post_state. Qed.
+Print Assumptions C10_post_state_star.
+
+Theorem C10_post_state_startup : forall born t k, good_tree t k ->
+  let st' := r_st (reload all_off born [] t k RNone) in
+  consistent t k st' /\ forall n, has st' n <-> spec_loaded t k n.
+Proof. exact startup_post_state. Qed.
+Print Assumptions C10_post_state_startup.
+
+(* C10_post_state_default_partial.  Full statement wanted:
+     forall history, good_tree at each step -> after every default reload: contexts = spec_loaded /\ consistent.
+   Proved: the equality (both directions) and consistency for every default or '*' reload from every state, under ONE
+   hypothesis: the survivors of the delete phase are consistent with the NEW tree.  It is vacuous after '*' and at
+   start-up (nothing survives; the two theorems above).  Missing to drop it for default reloads: deriving it from
+   the previous reload's post-state, i.e. that an unchanged file (same generation, mtime, configuration) has the same
+   import list and resolves it to the same names in the new tree as in the tree it was loaded from (cross-tree
+   stability of resolution: no newly created file shadows a candidate; generation determines the import list), and that
+   lingering unimported modules are absent.  The correspondence checks the equality on every generated history
+   (Spec clauses 1-2, by-source closure sp_load). *)
+Theorem C10_post_state_default_partial : forall born st t k a, good_tree t k -> uniq_ctx st -> acyclic st ->
+  (forall n, a <> RName n) ->
+  consistent t k (delete_phase st (p_del (plan all_off st (discover t k) a))) ->
+  let st' := r_st (reload all_off born st t k a) in
+  consistent t k st' /\ forall n, has st' n <-> spec_loaded t k n.
+Proof. exact post_state_exact. Qed.
+Print Assumptions C10_post_state_default_partial.
+
+(* unconditional (no good_tree, no hypothesis on the survivors), weaker: every context of the new table runs the current
+   source of an existing file -- a survivor is not `changed` w.r.t. the discovered file of its name, a re-executed
+   auto-loaded file is its discovered entry, an imported module is the tree's file at a candidate path *)
+Theorem C10_post_state_current : forall born st t k a,
   uniq_ctx st -> acyclic st -> (forall n, a <> RName n) ->
   let st' := r_st (reload all_off born st t k a) in
   uniq_ctx st' /\ forall c', In c' st' -> exists c, (c' = c \/ c' = set_started c) /\
                                            (in_ctx_roots (c_name c) = true -> current_ctx t k born c).
 Proof. exact post_state_current. Qed.
-Print Assumptions C10_post_state_partial.
+Print Assumptions C10_post_state_current.
+
+(* the post-state theorems at every default / '*' step of every history (incl. the global-option rule) *)
+Theorem C10_history_post : forall steps born old st, uniq_ctx st ->
+  hist_all (fun _ st _ _ => acyclic st) born old st steps -> hist_all step_post born old st steps.
+Proof. exact history_post. Qed.
+Print Assumptions C10_history_post.
+
+(* the exact re-execution set: whatever a reload executes is a forced auto-loaded file or a file an import statement
+   resolved to (any deviation setting); with C10_reexecuted (every forced auto-loaded file IS executed) and C10_untouched
+   (what is outside Discard is not replaced): executed = Forced auto-loaded + lazily imported, nothing else *)
+Theorem C10_reexecution_exact : forall dv born st t k a e,
+  In e (r_ev (reload dv born st t k a)) ->
+  (exists s, In s (load_list (p_files (plan dv st (discover t k) a))) /\ e = (sf_name s, sf_gen s)) \/ lazily_imported dv t e.
+Proof. exact reload_events_origin. Qed.
+Print Assumptions C10_reexecution_exact.
 
 Theorem C10_star_discards_all : forall born st t k c',
   uniq_ctx st -> acyclic st ->
